@@ -100,6 +100,8 @@ type pathState struct {
 	summaries, summaryPaths int
 	lazy    []*smt.Term
 	keys, keygens, signs, rands int
+	asn1Memo    map[string]asn1MemoEntry
+	asn1Inverse int
 	hashApps []hashApp
 	fresh   int
 	notes   []string
@@ -194,6 +196,9 @@ func (i *interpreter) decide(c *smt.Term) bool {
 		dc.trail = append(dc.trail, Decision{B: true})
 		i.assumeLazy(c)
 		return true
+	}
+	if debugDecide {
+		fmt.Fprintf(os.Stderr, "[decide] %s cond=%s\n", i.where(), c)
 	}
 	rt := i.solver.CheckWith(c)
 	if rt == smt.Unknown {
@@ -486,6 +491,7 @@ func sortedKeys(m map[string]bool) []string {
 var _ = big.NewInt
 
 var debugFork = os.Getenv("GOSYM_DEBUG_FORK") != ""
+var debugDecide = os.Getenv("GOSYM_DEBUG_DECIDE") != ""
 
 func (i *interpreter) noteFork(c *smt.Term) {
 	where := "?"
